@@ -307,15 +307,7 @@ def _run(ck, m):
     if in_loop and out_loop:
         live_first = any(qb.dominates(o, i) for o in out_loop for i in in_loop)
         # comparator orientation of the listing sort
-        srt = [b for b in P.user_bodies() if 'entries_by_creation_date::{closure' in b.id]
-        newest_first = None
-        for sb in srt:
-            for bi, t in sb.calls():
-                if callee_decl(t) == 'std::cmp::Ord::cmp':
-                    a0 = [r for r in origins(sb, t['args'][0], stop_at_calls=True)]
-                    # receiver of cmp derives from parameter 3 (b) => descending (newest first)
-                    calls, params = slice_calls(sb, t['args'][0])
-                    newest_first = 3 in params and 2 not in params
+        newest_first = listing_newest_first(P)
         flips = sum(1 for bi, t in qb.calls() if callee_decl(t) in ('std::slice::reverse', 'std::iter::Iterator::rev', 'std::iter::DoubleEndedIterator::rev'))
         if newest_first is not None and flips % 2 == 1:
             newest_first = not newest_first
@@ -393,12 +385,26 @@ def listing_newest_first(P):
     """orientation of get_op_log_entries_by_creation_date's comparator: True when it sorts newest first (b.cmp(a)), False when
     oldest first, None when not recognised"""
     srt = [b for b in P.user_bodies() if 'entries_by_creation_date::{closure' in b.id]
+    # the comparator may also be a named function handed to sort_by
+    for lb_ in [b for b in P.user_bodies() if b.id.endswith('get_op_log_entries_by_creation_date')]:
+        for bi, t in lb_.calls():
+            if callee_decl(t).split('::')[-1] in ('sort_by', 'sort_unstable_by', 'sort_by_key', 'sort_by_cached_key'):
+                for a in t['args'][1:]:
+                    for r in origins(lb_, a):
+                        if r[0] == 'const':
+                            c = core.const_of(r)
+                            fn_ = c.get('fn') or c.get('item')
+                            if fn_ and P.bodies.get(core.norm(fn_)) is not None:
+                                srt.append(P.bodies[core.norm(fn_)])
+                            elif fn_:
+                                srt += [b for b in P.user_bodies() if b.id == fn_ or b.id.endswith('::' + fn_.split('::')[-1]) and b.argc == 2]
     newest_first = None
     for sb in srt:
         for bi, t in sb.calls():
             if callee_decl(t) == 'std::cmp::Ord::cmp':
                 calls, params = slice_calls(sb, t['args'][0])
-                newest_first = 3 in params and 2 not in params
+                pa, pb = (2, 3) if sb.kind in ('closure', 'coroutine') else (1, 2)
+                newest_first = pb in params and pa not in params
     return newest_first
 
 
